@@ -229,8 +229,10 @@ fn run(cmd: &str, args: &[String], seed: u64, rep: &mut Report) {
             let per_entry = arg_u64(&args, "--per-entry", 200) as usize;
             let maxpos = arg_u64(&args, "--max-positions", 40) as usize;
             let journal_path = arg(&args, "--journal").map(|s| s.to_string());
+            let out_trace = arg(&args, "--out-trace").map(|s| s.to_string());
             let mut handles = Vec::new();
             for t in 0 .. threads {
+                let part = out_trace.as_ref().map(|p| format!("{p}.part{t}"));
                 let mine: Vec<String> = chosen.iter().enumerate().filter(|(i, _)| i % threads == t).map(|(_, e)| e.clone()).collect();
                 let (lay, tp, muts, stage, jp) = (lay.clone(), tp.clone(), muts.clone(), stage.clone(), journal_path.clone());
                 handles.push(std::thread::Builder::new().stack_size(64 << 20).spawn(move || {
@@ -244,6 +246,9 @@ fn run(cmd: &str, args: &[String], seed: u64, rep: &mut Report) {
                     };
                     let mut r = Report::new();
                     let mut trace = Vec::new();
+                    if let Some(p) = &part {
+                        fuzz::set_spill(p);
+                    }
                     let mut journal = jp.map(|p| std::fs::File::create(format!("{p}.{t}")).expect("journal"));
                     let res = std::panic::catch_unwind(std::panic::AssertUnwindSafe(|| {
                         if stage == "structured" {
@@ -255,12 +260,15 @@ fn run(cmd: &str, args: &[String], seed: u64, rep: &mut Report) {
                     if res.is_err() {
                         r.tool_error(&format!("harness panic in fuzz thread: {}", take_panic()));
                     }
-                    (r, trace)
+                    let first: Vec<Value> = trace.iter().take(1).cloned().collect();
+                    let n = if part.is_some() { fuzz::finish_spill(&mut trace) } else { trace.len() as u64 };
+                    (r, first, n)
                 }).unwrap());
             }
-            let mut all_trace: Vec<Value> = Vec::new();
+            let mut events = 0u64;
             for h in handles {
-                let (r, tr) = h.join().expect("fuzz thread");
+                let (r, tr, n) = h.join().expect("fuzz thread");
+                events += n;
                 rep.evaluations += r.evaluations;
                 rep.distinct.extend(r.distinct);
                 for v in r.violations {
@@ -278,12 +286,19 @@ fn run(cmd: &str, args: &[String], seed: u64, rep: &mut Report) {
                         rep.samples.push(json!({"first_trace_event": x}));
                     }
                 }
-                all_trace.extend(tr);
             }
-            rep.extra.insert("events".into(), json!(all_trace.len()));
+            rep.extra.insert("events".into(), json!(events));
             rep.extra.insert("entries".into(), json!(chosen.len()));
-            if let Some(p) = arg(&args, "--out-trace") {
-                write_ndjson(p, &all_trace);
+            if let Some(p) = &out_trace {
+                // the per-thread part files, one after the other (every part is a sequence of whole runs)
+                let mut o = std::io::BufWriter::new(std::fs::File::create(p).expect("trace file"));
+                for t in 0 .. threads {
+                    let part = format!("{p}.part{t}");
+                    if let Ok(mut f) = std::fs::File::open(&part) {
+                        std::io::copy(&mut f, &mut o).expect("copy trace part");
+                    }
+                    let _ = std::fs::remove_file(&part);
+                }
             }
         }
         "settings" => {
